@@ -1155,6 +1155,10 @@ func alwaysCall(p *Prog, call *ssa.Call, k int, d int, always func(ssa.Value, *s
 		if !ok || k >= len(ret.Results) {
 			continue
 		}
+		// a return that reports an error hands back no message; the encoder returns that error
+		if ec := corrResult(cal); ec >= 0 && ec != k && classifyReturn(ret, ec) == rcA {
+			continue
+		}
 		n++
 		if !always(spilledResult(ret, k), cal, d+1) {
 			return false
